@@ -81,3 +81,138 @@ Proof.
   split; [apply Rlt_le, Rdiv_lt_0_compat; [lra|apply pow_lt; lra]|].
   unfold Rdiv. rewrite !Rmult_1_l. apply Rinv_le_contravar; [apply pow_lt; lra|apply Rle_pow; [lra|lia]].
 Qed.
+
+(* ---- LogBase2 / twapLog ---- *)
+From Osmo Require C13.Log2 C13.Log2Proofs C13.Log2Total.
+From Osmo Require Import C10.ProofsLog C10.ProofsAnswer.
+Open Scope Z_scope.
+
+(* the two models of the three LogBase2 loops agree whenever both return (whatever their fuels) *)
+Lemma norm_up_agree f1 : forall f2 x y r1 r2,
+  log2_norm_up f1 x y = Some r1 -> C13.Log2.log2_norm_up f2 x y = C13.Common.Ok r2 -> r1 = r2.
+Proof.
+  induction f1 as [|f1 IH]; intros f2 x y r1 r2 H1 H2; destruct f2 as [|f2];
+    cbn [log2_norm_up C13.Log2.log2_norm_up] in *; destruct (x <? P36) eqn:E; try discriminate; try congruence.
+  unfold C13.Common.bdc_add, C13.Common.bd_check in H2. destruct (bd_fits (y + - P36)); cbn [C13.Common.bind] in H2; [|discriminate].
+  replace (y + - P36) with (y - P36) in H2 by lia. eapply IH; eassumption.
+Qed.
+
+Lemma two_same : two_bigdec = two_bd. Proof. reflexivity. Qed.
+
+Lemma norm_down_agree f1 : forall f2 x y r1 r2,
+  log2_norm_down f1 x y = Some r1 -> C13.Log2.log2_norm_down f2 x y = C13.Common.Ok r2 -> r1 = r2.
+Proof.
+  induction f1 as [|f1 IH]; intros f2 x y r1 r2 H1 H2; destruct f2 as [|f2];
+    cbn [log2_norm_down C13.Log2.log2_norm_down] in *; rewrite two_same in H2;
+    destruct (x >=? two_bd) eqn:E; try discriminate; try congruence.
+  unfold C13.Common.bdc_add, C13.Common.bd_check in H2. destruct (bd_fits (y + P36)); cbn [C13.Common.bind] in H2; [|discriminate].
+  eapply IH; eassumption.
+Qed.
+
+Lemma loop_log_agree n : forall x y b r1 r2,
+  log2_loop n x y b = Some r1 -> C13.Log2.log2_iter n x y b = C13.Common.Ok r2 -> r1 = r2.
+Proof.
+  induction n as [|n IH]; intros x y b r1 r2 H1 H2; cbn [log2_loop C13.Log2.log2_iter] in *; [congruence|].
+  unfold C13.Common.bdc_mul, C13.Common.bd_check in H2. unfold bdchk in H1.
+  destruct (bd_fits (bd_mul x x)); cbn [C13.Common.bind] in H2; [|discriminate].
+  rewrite two_same in H2. destruct (bd_mul x x >=? two_bd).
+  - unfold C13.Common.bdc_add, C13.Common.bd_check in H2. destruct (bd_fits (y + b)); cbn [C13.Common.bind] in H2; [|discriminate].
+    eapply IH; eassumption.
+  - eapply IH; eassumption.
+Qed.
+
+Lemma log_iterations_agree : log2_iterations = max_log2_iterations. Proof. reflexivity. Qed.
+
+(* the straight-line part of LogBase2 with the fuels as parameters (so that no proof step has to unfold a loop 1200 deep) *)
+Definition my_core (fu fd n : nat) (b x : Z) : option Z :=
+  match log2_norm_up fu x 0 with
+  | None => None
+  | Some (x1, y1) => match log2_norm_down fd x1 y1 with None => None | Some (x2, y2) => log2_loop n x2 y2 b end
+  end.
+Definition their_core (fu : nat) (fd : Z -> nat) (n : nat) (b : C13.Common.result Z) (x : Z) : C13.Common.result Z :=
+  C13.Common.bind (C13.Log2.log2_norm_up fu x 0) (fun p1 => let '(x1, y1) := p1 in
+  C13.Common.bind (C13.Log2.log2_norm_down (fd x1) x1 y1) (fun p2 => let '(x2, y2) := p2 in
+  C13.Common.bind b (fun b' => C13.Log2.log2_iter n x2 y2 b'))).
+
+Lemma core_agree fu1 fd1 fu2 fd2 n b x r r' :
+  my_core fu1 fd1 n b x = Some r -> their_core fu2 fd2 n (C13.Common.Ok b) x = C13.Common.Ok r' -> r = r'.
+Proof.
+  unfold my_core, their_core. intros H1 H2.
+  destruct (log2_norm_up fu1 x 0) as [[x1 y1]|] eqn:U1; [|discriminate].
+  destruct (C13.Log2.log2_norm_up fu2 x 0) as [[x1' y1']|] eqn:U2; cbn [C13.Common.bind] in H2; [|discriminate].
+  pose proof (norm_up_agree _ _ _ _ _ _ U1 U2) as E1. injection E1 as <- <-.
+  destruct (log2_norm_down fd1 x1 y1) as [[x2 y2]|] eqn:D1; [|discriminate].
+  destruct (C13.Log2.log2_norm_down (fd2 x1) x1 y1) as [[x2' y2']|] eqn:D2; cbn [C13.Common.bind] in H2; [|discriminate].
+  pose proof (norm_down_agree _ _ _ _ _ _ D1 D2) as E2. injection E2 as <- <-.
+  eapply loop_log_agree; eassumption.
+Qed.
+
+Lemma my_core_eq x : 0 < x -> log_base2 x = my_core 200 1200 log2_iterations one_half_bd x.
+Proof. intros Hx. unfold log_base2, my_core. destruct (x <=? 0) eqn:E; [lia|reflexivity]. Qed.
+
+Lemma one_half_same : C13.Log2.one_half_bigdec = C13.Common.Ok one_half_bd.
+Proof. vm_compute. reflexivity. Qed.
+
+Lemma their_core_eq x : 0 < x ->
+  C13.Log2.log_base2 x = their_core 120 (fun x1 => S (Z.to_nat (Z.log2 x1))) max_log2_iterations (C13.Common.Ok one_half_bd) x.
+Proof.
+  intros Hx. unfold C13.Log2.log_base2, their_core. destruct (x <=? 0) eqn:E; [lia|]. rewrite one_half_same. reflexivity.
+Qed.
+
+Lemma log_base2_agree x r : 0 < x -> bitlen x <= 1144 -> log_base2 x = Some r -> C13.Log2.log_base2 x = C13.Common.Ok r.
+Proof.
+  intros Hx Hb H. destruct (C13.Log2Total.log_base2_total x Hx Hb) as (r' & Hr'). rewrite Hr'. f_equal.
+  rewrite my_core_eq in H by assumption. rewrite their_core_eq in Hr' by assumption.
+  rewrite log_iterations_agree in H. symmetry. eapply core_agree; eassumption.
+Qed.
+
+Open Scope R_scope.
+
+Lemma log2R_same x : C13.Log2Proofs.log2R x = log2R x.
+Proof. reflexivity. Qed.
+
+(* twapLog = LogBase2 of the price as a BigDec, cut to 18 decimals: accurate to 2e-18 on every recordable price *)
+Theorem twap_log_accurate : forall p, (0 < p <= maxp)%Z ->
+  (0 < p)%Z /\ exists l, twap_log p = Some l /\ Rabs (dR l - log2R (dR p)) <= 2 / 10 ^ 18.
+Proof.
+  intros p Hp. split; [lia|].
+  assert (maxp <= 2 ^ 130 * P18)%Z as Hmax by (vm_compute; discriminate).
+  destruct (twap_log_total p ltac:(lia)) as (l & Hl & _). exists l. split; [assumption|].
+  unfold twap_log in Hl. destruct (p =? 0)%Z; [discriminate|].
+  destruct (log_base2 (bd_from_dec p)) as [y|] eqn:Ey; [|discriminate]. injection Hl as <-.
+  assert (0 < bd_from_dec p)%Z as Hx by (unfold bd_from_dec, P18; lia).
+  assert (bitlen (bd_from_dec p) <= 1144)%Z as Hb.
+  { unfold bitlen. destruct (bd_from_dec p =? 0)%Z; [lia|].
+    assert (Z.log2 (Z.abs (bd_from_dec p)) < 1143)%Z; [|lia].
+    apply Z.log2_lt_pow2; [lia|]. rewrite Z.abs_eq by lia. unfold bd_from_dec.
+    assert (2 ^ 130 * P18 * P18 < 2 ^ 1143)%Z by (vm_compute; reflexivity). assert (0 < P18)%Z by reflexivity. nia. }
+  destruct (C13.Log2Proofs.log_base2_err _ _ (log_base2_agree _ _ Hx Hb Ey) Hb) as [_ Herr].
+  rewrite !bdR_bR, log2R_same, bR_from_dec in Herr.
+  (* cut to 18 decimals: |dR (y quot 10^18) - bR y| < 1e-18 *)
+  assert (Rabs (dR (bd_to_dec y) - bR y) <= 1 / 10 ^ 18) as Hcut.
+  { unfold bd_to_dec, dR, bR. pose proof (Z.quot_rem' y P18) as Hqr.
+    assert (Z.abs (Z.rem y P18) < P18)%Z as Hrem by (pose proof (Z.rem_bound_abs y P18 ltac:(unfold P18; lia)); unfold P18 in *; lia).
+    apply IZR_lt in Hrem. rewrite abs_IZR, IZR_P18 in Hrem.
+    rewrite Hqr at 2. rewrite plus_IZR, mult_IZR, IZR_P18, pow36_split. pose proof pow18_pos as Hp18.
+    remember (IZR (Z.quot y P18)) as q. remember (IZR (Z.rem y P18)) as rr. remember (10 ^ 18) as T.
+    replace (q / T - (T * q + rr) / (T * T)) with (- rr / (T * T)) by (field; lra).
+    unfold Rdiv. rewrite Rabs_mult, Rabs_Ropp, (Rabs_pos_eq (/ (T * T))) by (left; apply Rinv_0_lt_compat; nra).
+    apply Rmult_le_reg_r with (T * T); [nra|]. rewrite Rmult_assoc, Rinv_l by nra.
+    replace (1 * / T * (T * T)) with T by (field; lra). lra. }
+  assert (3300 * C13.Exp2Real.u36 <= 1 / 10 ^ 18) as Hu.
+  { unfold C13.Exp2Real.u36. rewrite (pow_IZR 10 36) || idtac.
+    replace (IZR (10 ^ 36)) with (10 ^ 36) by (rewrite (pow_IZR 10 36); reflexivity).
+    rewrite pow36_split. pose proof pow18_pos as Hp18.
+    assert (3300 <= 10 ^ 18) by (replace 3300 with (33 * 10 ^ 2) by ring; assert (10 ^ 2 * 33 <= 10 ^ 2 * 10 ^ 16); [apply Rmult_le_compat_l; [apply pow_le; lra|]; assert (10 ^ 2 <= 10 ^ 16) by (apply Rle_pow; [lra|lia]); replace 33 with (33 * 1) by ring; nra|]; replace (10 ^ 18) with (10 ^ 2 * 10 ^ 16) by (rewrite <- pow_add; reflexivity); lra).
+    apply Rmult_le_reg_r with (10 ^ 18 * 10 ^ 18); [nra|].
+    replace (3300 * / (10 ^ 18 * 10 ^ 18) * (10 ^ 18 * 10 ^ 18)) with 3300 by (field; lra).
+    replace (1 / 10 ^ 18 * (10 ^ 18 * 10 ^ 18)) with (10 ^ 18) by (field; lra). assumption. }
+  replace (dR (bd_to_dec y) - log2R (dR p)) with ((dR (bd_to_dec y) - bR y) + (bR y - log2R (dR p))) by ring.
+  eapply Rle_trans; [apply Rabs_triang|]. lra.
+Qed.
+
+From Osmo Require Import C10.GeomMean.
+
+(* the two accuracy statements of C10/GeomMean.v hold, so its theorem applies to the model without hypotheses *)
+Theorem accuracy_statements : exp2_accuracy_stmt /\ twap_log_accuracy_stmt.
+Proof. split; [exact exp2_accurate|exact twap_log_accurate]. Qed.
